@@ -26,11 +26,15 @@ from harness.translate import gen as G
 from harness.translate import gen_c02
 
 PROPERTY = "C02"
-LEAN_MODULES = ["SigpyVerif.Props.C02", "SigpyVerif.Gen.EffectsOk"]
+LEAN_MODULES = ["SigpyVerif.Props.C02", "SigpyVerif.Props.C02Tree", "SigpyVerif.Gen.EffectsOk"]
 STATIC_THEOREMS = ["SigpyVerif.C02." + t for t in [
     "analyze_sound", "noMutation_sound", "noMutation_sound_entry", "ret_sound", "ret_fresh_disjoint",
     "denote_linear", "conj_sandwich_linear", "conj_half_antilinear", "conj_half_not_linear",
     "history_determinism", "history_equal_inputs_equal_outputs", "caching_operator_not_deterministic",
+    # Props/C02Tree.lean: whole operator trees of the C01 expression language
+    "applyF_linear", "lin_comp", "lin_add", "lin_conj", "denote_comp_act", "denote_add_act", "denote_conj_act",
+    "denote_hstack_act", "denote_vstack_act", "denote_diag_act", "tree_linear", "tree_additive_homogeneous",
+    "tree_conj_linear_complex", "tree_deterministic", "treeApp_wellBehaved", "tree_history_deterministic",
 ]]
 # functions/methods that MUST have a kernel-checked `noMutation prog = true` obligation.  A function that
 # disappears from the translator's output or stops checking is a broken obligation, never a silent drop.
@@ -66,7 +70,8 @@ _META = {}
 
 
 def translate(ctx):
-    G.regenerate(ctx, ["Effects", "EffectsOk"])
+    # Block/UtilFormulas/LinopFormulas/Interp: imported (through Model/C01) by Props/C02Tree
+    G.regenerate(ctx, ["Effects", "EffectsOk", "Block", "UtilFormulas", "LinopFormulas", "Interp"])
     g = gen_c02._LAST.get("gen")
     if g is None:
         return
@@ -87,6 +92,12 @@ def translate(ctx):
                "in-scope functions without an IR program / obligation: %s" % missing)
     ctx.notes.append("needsRuntime (analysis cannot prove clean; runtime stream only): %s" % json.dumps(gen_c02.NEEDS_RUNTIME))
     ctx.notes.append("in place by documented contract: %s" % json.dumps(gen_c02.INPLACE_BY_CONTRACT))
+    ctx.notes.append("tree linearity is a theorem (Props/C02Tree: tree_linear, by structural induction over C01.Expr) for the "
+                     "C01 expression language: 19 leaf classes (Identity, Reshape, Transpose, Resize, Flip, Circshift, "
+                     "Downsample, Upsample, Sum, Tile, Slice, Embed, Multiply, MatMul, RightMatMul, ArrayToBlocks, "
+                     "BlocksToArray, Interpolate, Gridding) + combinators Compose/Add/Conj/Hstack/Vstack/Diag, whose "
+                     "denotation is tied to the real operators' matrices by the C01 correspondence; linearity of "
+                     "FFT/NUFFT/wavelet/convolution leaves remains runtime-validated by this check's linearity stream")
 
 
 # ================================================================================================
